@@ -109,6 +109,43 @@ def oracle(acts, recs):
     return fails
 
 
+def creg_cases(rng, tier):
+    from coqio import cN, clist
+    from generic import Case
+    cs = []
+    for n in (0, 1, 2, 3, 31, 32, 63):
+        for st in sorted({0, 1, 2, (1 << n) - 1 if n else 0, 1 << n, (1 << n) + 1, (1 << 63) | 1, (1 << 64) - 1, rng.getrandbits(64)}):
+            val = st & ((1 << n) - 1)
+
+            def pi(payload):
+                t = payload.split()
+                return ("ok", int(t[1]), int(t[2]), t[3].strip("()")) if t[0] == "OK" else ("bad", payload)
+
+            def pm(v):
+                g, num, dbg = v
+                return ("fuel",) if dbg == "None" else ("ok", g, num, "".join("1" if b == "true" else "0" for b in dbg[1][0]))
+            want = ("ok", val, n, format(val, "0%db" % n) if n else "")
+            cs.append(Case("creg %d %d " % (n, st), "run_creg %s %s %s" % (cN(n), cN(st), clist([])), pi, pm,
+                           oracle=lambda o, want=want: o == want, kind="creg"))
+    for n1, n2 in [(0, 0), (0, 1), (1, 0), (0, 5), (5, 0), (2, 3), (3, 2), (0, 63), (63, 0), (31, 32), (1, 62)]:
+        for _ in range(2):
+            s1 = rng.getrandbits(min(n1 + 2, 64)); s2 = rng.getrandbits(min(n2 + 2, 64))
+
+            def pi(payload):
+                t = payload.split()
+                return ("ok", int(t[1]), int(t[2])) if t[0] == "OK" else ("bad", payload)
+
+            def pm(v):
+                if v == "None":
+                    return ("panic",)
+                a, b = v[1][0]
+                return ("ok", a, b)
+            want = ("ok", n1 + n2, (s1 & ((1 << n1) - 1)) | ((s2 & ((1 << n2) - 1)) << n1))
+            cs.append(Case("cmul %d %d %d %d" % (n1, s1, n2, s2), "run_cmul %s %s %s %s" % (cN(n1), cN(s1), cN(n2), cN(s2)),
+                           pi, pm, oracle=lambda o, want=want: o == want, kind="cmul"))
+    return cs
+
+
 if __name__ == "__main__":
     tier, seed = tier_seed()
     run = Run(PROP, tier, seed)
@@ -118,8 +155,15 @@ if __name__ == "__main__":
     n, dis, recs = regcheck.run_histories(run, binary, hs, PROP, oracle,
                                           "C14 construction / tensor / set_num raw buffers and sizes", "C14_basis, C14_tensor, C14_sizes, C14_resize")
     cs = [generic.Case(regcheck.hist_harness(s, a)[:400], None, None, None, kind=a[0][0] + "+" + (a[2][0] if len(a) > 2 else "")) for s, a in hs]
+    # classical registers alike: the basis value reduced modulo 2^n for every size incl. 0, 1, 2 and 63; products with the
+    # empty register on either side and with the left factor in the low bits
+    ccs = creg_cases(run.rng, tier)
+    n3, dis3, _ = generic.run_generic(run, binary, "bits", ccs, ["RunBits"], PROP + "creg",
+                                      "C14 classical registers: construction and products", "C14_basis, C14_tensor", deadline=3.0)
+    n += n3; dis = dis + dis3; cs = cs + ccs
     generic.finish(run, PROP, au, cs, n, dis,
                    "with_state for every size 0..6 x every index up to 2^(n+1) plus usize::MAX; tensor chains of up to 4 factors in random "
                    "states (both sides and *=); grow/shrink sequences of up to 8 set_num calls; observables' sizes after every step; "
-                   "CReg products are covered by C20",
+                   "classical registers: with_state for sizes 0 1 2 3 31 32 63 x indices around 2^n and the word size, printed form, "
+                   "products with the empty register on either side",
                    assumptions=[])
